@@ -139,3 +139,49 @@ Theorem gen_from_split_bitmasks_is_model : forall acc ns count rooted l,
   gen_from_split_bitmasks ns count rooted l = Ok (from_splits ns count rooted l).
 Proof. exact gen_from_split_bitmasks_eq. Qed.
 Print Assumptions gen_from_split_bitmasks_is_model.
+
+(* ---- object level (wave 7): Gen/BipartitionObj.v ------------------------------------------------ *)
+(* py/dv/gen_bipartition_obj.py compiles the statements of encode_bipartitions that create, bind, write to and
+   return Bipartition OBJECTS (and the tail deciding which list is stored and when the lazy map is consumed)
+   into operations on the object heap of Model/C01ObjModel.v; primitive semantics trusted: Model/C01ObjPrims.v.
+   The theorems say that the generated functions are the hand model's, so that
+   encoding_creates_fresh_bipartition_objects / saved_encoding_keeps_its_masks / no_bipartition_object_shared /
+   object_level_refines_value_level of Props/C01.v hold of the generated code. *)
+From DV Require Import Model.C01ObjModel Model.C01ObjPrims Gen.BipartitionObj Proofs.C01Obj Proofs.C01ObjGen
+  Proofs.C01ObjGen2.
+
+(* the loop body's object statements: a NEW object is created, bound to the edge and written in place *)
+Theorem ogen_first_pass_edge_is_model : forall r h e,
+  ogen_first_pass_edge r (fst (snd e)) (fst e) h = first_pass_edge r h e.
+Proof. exact ogen_first_pass_edge_eq. Qed.
+Print Assumptions ogen_first_pass_edge_is_model.
+
+(* the compile helpers write to the object bound to the edge and return that same object *)
+Theorem ogen_compile_edge_is_model : forall compile g nid h c b,
+  oh_slot h nid = Some c -> st_get (oh_store h) c = Some b -> compile b = Ok (g b) ->
+  ogen_compile_mutable_bipartition_for_edge compile nid h = Ok (oh_write c g h, c) /\
+  ogen_compile_immutable_bipartition_for_edge compile nid h = Ok (oh_write c g h, c).
+Proof. exact ogen_compile_edge_eq. Qed.
+Print Assumptions ogen_compile_edge_is_model.
+
+(* the tail: map(_compile_bipartition, tree_edges) is consumed to the end whatever suppress_storage is;
+   None or the new list is stored *)
+Theorem ogen_tail_is_model : forall ss run_map stored h h2 l,
+  run_map h = Ok (h2, l) -> ogen_tail ss run_map stored h = Ok (h2, if ss then None else Some l).
+Proof. exact ogen_tail_eq. Qed.
+Print Assumptions ogen_tail_is_model.
+
+(* the constructor as the object level reads it is the generated Bipartition.__init__ *)
+Theorem prim_bip_new_is_generated_init : forall cb mu,
+  gen_init None None None None mu cb = Ok (prim_bip_new cb mu, tt).
+Proof. exact prim_bip_new_gen_init. Qed.
+Print Assumptions prim_bip_new_is_generated_init.
+
+(* encode_bipartitions at the object level with the GENERATED compile helpers, all four keywords, every state
+   (any heap, any earlier encodings kept by the caller) whose encoded tree has pairwise distinct node ids *)
+Theorem ogen_encode_bipartitions_is_model : forall su cb ss mut acc s,
+  NoDup (map fst (r_edges (encode_f su cb acc (ot_rooted s) (ot_tree s)))) ->
+  ogen_encode_bipartitions su cb ss mut acc gen_compile_mutable_bipartition_for_edge
+    gen_compile_immutable_bipartition_for_edge s = Ok (obj_encode su cb ss mut acc s).
+Proof. exact ogen_encode_generated_eq. Qed.
+Print Assumptions ogen_encode_bipartitions_is_model.
